@@ -45,7 +45,7 @@ OPS = ["sort_axis", "take_axis", "compress_axis", "compress", "dropna", "fillna"
 def case_st(draw):
     op = draw(st.sampled_from(OPS))
     nd = draw(st.integers(1, 4))
-    spec = draw(gen.array_spec(min_dims=nd, max_dims=nd, min_size=1, max_size=4 if nd < 4 else 3, vks="fffi"))
+    spec = draw(gen.array_spec(min_dims=nd, max_dims=nd, min_size=1, max_size=4 if nd < 4 else 3, vks="fi" if op == "setna" else "fffi"))
     ncell = int(np.prod([len(l) for l in spec["labels"]]))
     shape = [len(l) for l in spec["labels"]]
     ax = draw(st.integers(0, nd - 1))
